@@ -68,7 +68,7 @@ def classify(case, real, model):
 
 def run(ctx):
     quick = ctx.tier == "quick"
-    n_per = 3000 if quick else 80000
+    n_per = 3000 if quick else 150000
     ctx.assumptions += [
         "model: wake_task / itw_wake / read_itw / cancel_itw_read / deliver of Async/Task.v transcribe SharedTaskState::wake_by_ref, WakerState::wake, read_inter_task_stream, cancel_inter_task_stream_read, consume_waitable_event; unit stream = stream of Async/Host.v",
         "theorems are per transition (for every state, hence every interleaving); the run-level statement 'no assert on a unit-stream return code ever fires' is refuted by the stale-waker witness and, outside that class, carried by tie + search only",
